@@ -4,13 +4,13 @@ package main
 
 import (
 	"fmt"
-	"time"
-	"runtime"
 	"go/token"
 	"go/types"
+	"runtime"
 	"sort"
 	"strings"
 	"sync"
+	"time"
 
 	"golang.org/x/tools/go/ssa"
 )
@@ -30,6 +30,7 @@ const (
 	fkNormal = iota
 	fkCatch  // frame pushed by vCatch: a panic stops here
 	fkDefer  // deferred call started by RunDefers
+	fkCont   // call made by an intercept; its result goes to a native continuation
 )
 
 type Frame struct {
@@ -42,6 +43,7 @@ type Frame struct {
 	defers  []deferRec
 	retTo   ssa.Value
 	kind    int
+	cont    func(m *Machine, r value) value
 	objMark int // nextObj at entry (for purity / freshness checks)
 }
 
@@ -163,27 +165,28 @@ type Machine struct {
 	consts  map[*ssa.Const]value
 
 	// per-instruction fork state
-	replay     []decision
-	replayIdx  int
-	decs       []decision
-	instrLevel     int
-	instrPush      bool
-	instrWrote     bool
-	altModelIn     Model
-	instrTrailMark int
-	instrFacts     int
-	instrInputs    int
-	instrPc        int
-	instrObs       int
-	instrNextObj   int
-	instrMonLen    int
-	mapOrderNondet bool
-	twin           bool
-	itemStart      time.Time
-	noSummaries    bool
-	forkProf       map[string]int
-	keepHeap       bool
-	rng            uint64
+	replay            []decision
+	replayIdx         int
+	decs              []decision
+	instrLevel        int
+	instrPush         bool
+	instrWrote        bool
+	altModelIn        Model
+	instrTrailMark    int
+	instrFacts        int
+	instrInputs       int
+	instrPc           int
+	instrObs          int
+	instrNextObj      int
+	instrMonLen       int
+	mapOrderNondet    bool
+	twin              bool
+	codecUnrecognised int
+	itemStart         time.Time
+	noSummaries       bool
+	forkProf          map[string]int
+	keepHeap          bool
+	rng               uint64
 
 	pc      []*Term
 	facts   map[int32]bool
@@ -253,6 +256,9 @@ func NewMachine(prog *ssa.Program, cfg *Config) (*Machine, error) {
 		funcsRun: map[string]bool{}, stubsHit: map[string]int{}, loopCount: map[loopKey]int{},
 	}
 	m.intercepts = buildIntercepts()
+	for _, f := range extraIntercepts {
+		f(m.intercepts)
+	}
 	return m, nil
 }
 
@@ -682,7 +688,8 @@ func (m *Machine) chooseN(n int) int {
 		m.replayIdx++
 		m.decs = append(m.decs, d)
 		i := int(d.v)
-		if i+1 < n {
+		// only the decision that is being taken as the alternative chains to the next one
+		if m.replayIdx == len(m.replay) && i+1 < n {
 			m.pushChoiceAfterReplay(decision{kind: 3, v: uint64(i + 1)})
 		}
 		return i
@@ -785,6 +792,10 @@ func (m *Machine) Run(fn *ssa.Function, harness string, params map[string]int) (
 		// reset state for the next work item
 		m.frames = m.frames[:0]
 		m.choices = m.choices[:0]
+		m.replay = nil
+		m.mapOrderNondet = false
+		m.altModelIn = nil
+		m.panicVal = nil
 		if !m.keepHeap {
 			m.rollback(baseTrail)
 		}
@@ -800,6 +811,8 @@ func (m *Machine) Run(fn *ssa.Function, harness string, params map[string]int) (
 		m.epoch++
 	}()
 	m.paths, m.instrs = 0, 0
+	m.codec = nil
+	m.codecUnrecognised = 0
 	m.itemStart = time.Now()
 	m.violations = nil
 	m.witnesses = nil
@@ -977,4 +990,31 @@ func (m *Machine) stackString() string {
 		sb.WriteString(m.frames[i].fn.String())
 	}
 	return sb.String()
+}
+
+// callCont calls an interpreted function on behalf of an intercept of the current Call
+// instruction; when it returns, cont receives the result and either returns the value of
+// the intercepted call or starts another callCont (returning pushedFrame).
+// Continuations must be pure functions of their captured (immutable) data and r.
+func (m *Machine) callCont(fn *ssa.Function, args []value, env []value, cont func(m *Machine, r value) value) value {
+	top := &m.frames[len(m.frames)-1]
+	var res ssa.Value
+	if v, ok := top.block.Instrs[top.ip].(ssa.Value); ok {
+		res = v
+	}
+	m.pushFrame(fn, args, env, res, fkCont)
+	m.frames[len(m.frames)-1].cont = cont
+	return pushedFrame
+}
+
+// methodOf finds the method `name` of the dynamic type of an interface value.
+func (m *Machine) methodOf(t types.Type, name string) *ssa.Function {
+	ms := m.prog.MethodSets.MethodSet(t)
+	for i := 0; i < ms.Len(); i++ {
+		sel := ms.At(i)
+		if sel.Obj().Name() == name {
+			return m.prog.MethodValue(sel)
+		}
+	}
+	return nil
 }
